@@ -182,7 +182,14 @@ fn build(p: &Program, order: &[usize]) -> (Library, Vec<Ptr<Instance>>) {
         let row: Ptr<Cell> = Ptr::new(Cell::from(row));
         parent.instances.add(Instance { inst_name: "rowinst".into(), cell: row, loc: Place::Abs(Xy::new(PrimPitches::x(3_000), PrimPitches::y(3_000))), reflect_horiz: false, reflect_vert: false });
     }
-    lib.cells.add(parent);
+    // the cell under test may carry an abstract view next to its layout (Cell::from_views / add_view): its layout must be placed all the same
+    if p.specs.len() % 3 == 1 {
+        let mut c = Cell::from(parent);
+        c.abs = Some(tet::abs::Abstract::new("parent", 0, Outline::rect(10_000, 10_000).unwrap()));
+        lib.cells.push(Ptr::new(c));
+    } else {
+        lib.cells.add(parent);
+    }
     (lib, insts)
 }
 fn permutations(n: usize) -> Vec<Vec<usize>> {
